@@ -56,7 +56,9 @@ def guard_active(model, case):
         # against the spread of the data - the textbook singularity of the
         # Gaussian mixture likelihood, also for spherical covariances)
         data = case.emb if kind == 'gcacgmm' else case.y
-        spread = float(np.var(np.asarray(data, dtype=np.float64)))
+        arr = np.asarray(data, dtype=np.float64)
+        # per-feature variance (a common offset of the data is not spread)
+        spread = float(np.mean(np.var(arr.reshape(-1, arr.shape[-1]), axis=0)))
         var = np.abs(ev) if ct == 'full' else np.abs(cov)
         if np.any(var < 1e-10 * max(spread, 1e-300)):
             return True
@@ -154,6 +156,19 @@ def _trajectory(ctx, case):
 
 def _check(d, ctx, kind, max_iter, tied=False):
     case = _draw(d, kind, max_iter, tied)
+    # Gaussian streams: a common offset far larger than the spread of the data
+    # in one case of four (features with a large mean: log-energies,
+    # embeddings) - general position is unaffected
+    offset = 0.0
+    if kind in ('gmm', 'gcacgmm') and d.aux(21).integers(0, 3) == 0:
+        offset = 10.0 ** d.aux(22).uniform(5, 7.5)
+        direction = d.aux(23).normal(size=(case.E if kind == 'gcacgmm' else case.D))
+        direction /= np.linalg.norm(direction)
+        if kind == 'gmm':
+            case.y = case.y + offset * direction
+        else:
+            case.emb = case.emb + offset * direction
+        case.meta['offset'] = offset
     ctx.describe(**case.describe())
     ctx.label(kind, f'wca={case.opts.get("weight_constant_axis")}',
               f'saliency={case.meta.get("saliency")}',
@@ -172,7 +187,8 @@ def _check(d, ctx, kind, max_iter, tied=False):
     rel = 1e-7 if kind == 'cwmm' else 1e-9
     for i in range(1, len(lls)):
         tol = (rel + total_n * case.K * eps * 50) * (1 + abs(lls[i - 1])) \
-            + (1e-7 * total_n if kind == 'cwmm' else 0.0)
+            + (1e-7 * total_n if kind == 'cwmm' else 0.0) \
+            + total_n * offset * 1e-13     # rounding of y - mean at the offset
         if not np.isfinite(lls[i]) or lls[i] < lls[i - 1] - tol:
             raise Violation(
                 'log-likelihood-decreased',
